@@ -188,6 +188,10 @@ structure Out where
   err : Bool := false
   deriving Repr, DecidableEq
 
+/-- the logger an event belongs to -/
+def Ev.logger : Ev → Nat
+  | .log lg _ _ => lg | .initBt lg _ => lg | .flushBt lg => lg | .setFlushLvl lg _ => lg
+
 /-- carry out a decision for logger `lg`; `stmt` is the statement itself (used when `write`/`store`) -/
 def applyAction (p : Params) (bt lg : Nat) (a : Action) (stmt : Write) (s : BSt) : BSt × Out :=
   let own : List Write := if a.write then [stmt] else []
